@@ -268,7 +268,7 @@ def _scaled_or_accum(prog, f, c, k):
         return "SCALED" if ok else "OTHER"
     if f.name == "condense_ballots" and isinstance(w, ast.Name):
         for n in astx.walk_own(f.node):
-            if isinstance(n, ast.For) and isinstance(n.target, ast.Tuple) and w.id in astx.assigned_names(n.target) and astx.u(n.iter).endswith(".items()"):
+            if isinstance(n, (ast.For, ast.comprehension)) and isinstance(n.target, ast.Tuple) and w.id in astx.assigned_names(n.target) and astx.u(n.iter).endswith(".items()"):
                 return "ACCUM"
     return "OTHER"
 
